@@ -154,9 +154,14 @@ def _race(leave_kind, interleaving):
         instances = []
         hook = None
 
+        ctor_hook = None
+
         def __init__(self, interval, fn):
             self.fn, self.armed = fn, False
             ScriptedTimer.instances.append(self)
+            h, ScriptedTimer.ctor_hook = ScriptedTimer.ctor_hook, None
+            if h is not None:
+                h()
 
         def start(self):
             self.armed = True
@@ -186,13 +191,16 @@ def _race(leave_kind, interleaving):
             pb.update(1)
             fired = pb._timer
             fired.armed = False
-            if interleaving == 'callback-first':
+            if interleaving in ('callback-first', 'callback-at-rearm'):
                 go, done = threading.Event(), threading.Event()
 
                 def hook():
                     go.set()
                     done.wait(0.5)
-                ScriptedTimer.hook = hook
+                if interleaving == 'callback-first':
+                    ScriptedTimer.hook = hook              # the callback pauses inside its cancel()
+                else:
+                    ScriptedTimer.ctor_hook = hook         # ... or when it creates the next timer (just before start())
                 cb = threading.Thread(target=fired.fn)
                 cb.start()
                 go.wait(2.0)
@@ -222,7 +230,7 @@ _old_timer_race = timer_race
 def timer_race(inp):
     bad = []
     for kind in ('exit', 'context-normal', 'context-exception'):
-        for inter in ('callback-first', 'caller-first'):
+        for inter in ('callback-first', 'callback-at-rearm', 'caller-first'):
             n = _race(kind, inter)
             if n:
                 bad.append({'caller_leaves_by': kind, 'interleaving': inter, 'armed_timers_after_the_caller_left': n})
